@@ -27,6 +27,12 @@ impl RdhStats {
     pub fn validate_other(&self, other: &Self) -> (r: Result<(), Vec<String>>) ensures r.is_ok() <==> *self == *other, r matches Err(v) ==> v@.len() > 0 { unimplemented!() }
 }
 impl ErrorStats {
+    pub uninterp spec fn s_err_count(&self) -> u64;
+    pub uninterp spec fn s_any_fatal(&self) -> bool;
+    #[verifier::external_body]
+    pub fn err_count(&self) -> (r: u64) ensures r == self.s_err_count() { unimplemented!() }
+    #[verifier::external_body]
+    pub fn any_fatal_err(&self) -> (r: bool) ensures r == self.s_any_fatal() { unimplemented!() }
     #[verifier::external_body]
     pub fn validate_other(&self, other: &Self) -> (r: Result<(), Vec<String>>) ensures r.is_ok() <==> *self == *other, r matches Err(v) ==> v@.len() > 0 { unimplemented!() }
 }
@@ -48,6 +54,14 @@ impl StatsCollector {
 //@EXTRACT sc_error_stats
 
 //@EXTRACT sc_alpide_stats
+
+// further accessors of the collector, extracted so that a changed validate_other_stats that uses them is
+// still checked against the contract (instead of failing to compile = inconclusive)
+//@EXTRACT sc_err_count
+
+//@EXTRACT sc_any_errors
+
+//@EXTRACT sc_any_fatal_err
 
 //@EXTRACT validate_other_stats
 }
